@@ -124,7 +124,11 @@ def get_type_graph(t: type) -> graphlib.TopologicalSorter[TypeNode]:
     while stack:
         parent = stack.popleft()
         parent_unwrapped = inspection.unwrap(parent.type)
-        if inspection.isliteral(parent_unwrapped):
+        # The arguments of a literal are values and an opaque type (e.g., a
+        #   callable) is passed through whole: neither has members to visit.
+        if inspection.isliteral(parent_unwrapped) or inspection.isunresolvable(
+            parent_unwrapped
+        ):
             graph.add(parent)
             continue
 
